@@ -69,8 +69,8 @@ def build_cases(ctx, quick, rnd, att, ok, lad, unit):
     rnd.shuffle(att)
     ok = [v for v in ok if any(o["op"] in ("get", "zip") for p in v["progs"] for o in p)]
     rnd.shuffle(ok)
-    att = att[:220 if quick else 3000]
-    ok = ok[:180 if quick else 3000]
+    att = att[:140 if quick else 3000]
+    ok = ok[:100 if quick else 3000]
     big = [e for e in lad if e["n"] * unit + e["d"] > 2 * unit]     # above the buffer: more than one flush
     cases = []
     for i, v in enumerate(att + ok):
@@ -108,14 +108,29 @@ def build_cases(ctx, quick, rnd, att, ok, lad, unit):
 
 
 def execute(ctx, binary, cases, name, race_log=None):
-    d = ctx.scratch(name)
-    cp, tp = os.path.join(d, "cases.ndjson"), os.path.join(d, "trace.ndjson")
-    core.write_ndjson(cp, cases)
-    env = {}
-    if race_log:
-        env["GORACE"] = "halt_on_error=0 exitcode=0 log_path=%s" % race_log
-    core.run_vh(binary, ["xh-resp", "-in", cp, "-out", tp], timeout=1500, env_extra=env)
-    return open(tp).readlines()
+    """Cases are independent (one fresh application each): run them in parallel chunks; history numbers are made global again."""
+    nchunk = max(1, min(8, core.NCPU // 2, len(cases) // 10 or 1))
+    per = (len(cases) + nchunk - 1) // nchunk
+
+    def one(i):
+        d = ctx.scratch("%s-%02d" % (name, i))
+        cp, tp = os.path.join(d, "cases.ndjson"), os.path.join(d, "trace.ndjson")
+        core.write_ndjson(cp, cases[i * per:(i + 1) * per])
+        env = {}
+        if race_log:
+            env["GORACE"] = "halt_on_error=0 exitcode=0 log_path=%s" % race_log
+        core.run_vh(binary, ["xh-resp", "-in", cp, "-out", tp], timeout=1500, env_extra=env)
+        out = []
+        for ln in open(tp):
+            x = json.loads(ln)
+            x["h"] += i * per
+            # keys in the harness's order: shards are cut at lines that start with {"k":"reset"
+            out.append(json.dumps(x, separators=(",", ":")) + "\n")
+        return out
+
+    with ThreadPoolExecutor(max_workers=nchunk) as ex:
+        parts = list(ex.map(one, range(nchunk)))
+    return [ln for part in parts for ln in part]
 
 
 def judge(ctx, prop, cases, raw, name):
